@@ -11,12 +11,12 @@ ASSUME = ["TLC and the CommunityModules Json reader are trusted",
           "storage is the checker's in-memory storage (harness/internal/vt/recstor.go)"]
 
 TIERS = {  # mode: (programs, steps) per tier
-    "c01": {"quick": (32, 900), "thorough": (400, 2500)},
-    "c02": {"quick": (32, 700), "thorough": (400, 2000)},
-    "c03": {"quick": (32, 800), "thorough": (400, 2200)},
-    "c11": {"quick": (32, 700), "thorough": (400, 2000)},
-    "c16": {"quick": (32, 900), "thorough": (300, 2500)},
-    "c20": {"quick": (32, 700), "thorough": (300, 2000)},
+    "c01": {"quick": (96, 900), "thorough": (400, 2500)},
+    "c02": {"quick": (64, 700), "thorough": (400, 2000)},
+    "c03": {"quick": (96, 800), "thorough": (400, 2200)},
+    "c11": {"quick": (96, 700), "thorough": (400, 2000)},
+    "c16": {"quick": (96, 900), "thorough": (300, 2500)},
+    "c20": {"quick": (64, 700), "thorough": (300, 2000)},
     "c18": {"quick": (32, 500), "thorough": (180, 1200)},
 }
 
